@@ -366,7 +366,7 @@ int kx_net_dispatch(char **tok, int ntok, int *handled) {
 		if (rc == KSI_OK && e) out_sig("sig", e);
 		KSI_Signature_free(*slot); *slot = e; return rc; }
 	if (is("blocksign")) { /* blocksign <c> <nleaves> <masking 0|1> <meta 0|1> <seed>: whole block signer life cycle; signatures of all leaves are verified internally */
-		KSI_CTX *c = kx_ctx(atoi(tok[1])); int n = atoi(tok[2]), masking = atoi(tok[3]), meta = atoi(tok[4]); unsigned seed = (unsigned)atoi(tok[5]); int i, rc; int nsig = 0;
+		KSI_CTX *c = kx_ctx(atoi(tok[1])); int n = atoi(tok[2]), masking = atoi(tok[3]), meta = atoi(tok[4]); unsigned seed = (unsigned)atoi(tok[5]); int i, rc; int nsig = 0; int cont = (int)kx_kvl("cont", 0), firsterr = 0, nfail = 0;
 		KSI_BlockSigner *bs = NULL; KSI_BlockSignerHandle *h[64]; KSI_DataHash *prev = NULL; KSI_OctetString *iv = NULL; unsigned char ivb[32];
 		if (n > 64) n = 64; memset(h, 0, sizeof h);
 		if (masking) { for (i = 0; i < 32; i++) ivb[i] = (unsigned char)(seed + (unsigned)i); rc = KSI_OctetString_new(c, ivb, 32, &iv); if (rc) goto bs_done; rc = KSI_DataHash_createZero(c, KSI_HASHALG_SHA2_256, &prev); if (rc) goto bs_done; }
@@ -380,19 +380,28 @@ int kx_net_dispatch(char **tok, int ntok, int *handled) {
 				rc = KSI_MetaData_setClientId(md, cid); KSI_Utf8String_free(cid); /* the setter takes its own reference */ if (rc) { KSI_MetaData_free(md); KSI_DataHash_free(dh); goto bs_done; } }
 			rc = KSI_BlockSigner_addLeaf(bs, dh, 0, md, &h[i]);
 			KSI_DataHash_free(dh); KSI_MetaData_free(md);
+			/* cont=1: a refused leaf is given up, the signer is used on (the objects must stay usable after a failure) */
+			if (rc && cont) { if (!firsterr) firsterr = rc; nfail++; if (h[i]) { kx_out(" handle_on_error=%d", i); } rc = 0; continue; }
 			if (rc) goto bs_done;
 		}
-		rc = KSI_BlockSigner_closeAndSign(bs); if (rc) goto bs_done;
+		rc = KSI_BlockSigner_closeAndSign(bs);
+		if (rc && cont) { if (!firsterr) firsterr = rc; nfail++; rc = KSI_BlockSigner_closeAndSign(bs); }
+		if (rc) goto bs_done;
 		for (i = 0; i < n; i++) { KSI_Signature *sg = NULL; KSI_DataHash *dh = NULL; unsigned char data[8]; int r2;
-			rc = KSI_BlockSignerHandle_getSignature(h[i], &sg); if (rc) goto bs_done;
+			if (cont && h[i] == NULL) continue;
+			rc = KSI_BlockSignerHandle_getSignature(h[i], &sg);
+			if (rc && cont) { if (!firsterr) firsterr = rc; nfail++; rc = KSI_BlockSignerHandle_getSignature(h[i], &sg); }
+			if (rc) goto bs_done;
 			memcpy(data, &seed, 4); memcpy(data + 4, &i, 4);
 			rc = KSI_DataHash_create(c, data, 8, KSI_HASHALG_SHA2_256, &dh); if (rc) { KSI_Signature_free(sg); goto bs_done; }
 			r2 = KSI_Signature_verifyWithPolicy(sg, dh, 0, KSI_VERIFICATION_POLICY_INTERNAL, NULL);
 			KSI_DataHash_free(dh); KSI_Signature_free(sg);
 			if (r2 == KSI_OK) nsig++; else if (r2 == KSI_VERIFICATION_FAILURE) kx_out(" badsig=%d", i); else { rc = r2; goto bs_done; }
 		}
+		if (cont) kx_out(" completed=1");
 bs_done:
 		kx_out(" nsig=%d", nsig);
+		if (cont) { kx_out(" failed_calls=%d", nfail); if (!rc) rc = firsterr; }
 		for (i = 0; i < 64; i++) KSI_BlockSignerHandle_free(h[i]);
 		KSI_BlockSigner_free(bs); KSI_DataHash_free(prev); KSI_OctetString_free(iv);
 		return rc; }
